@@ -43,7 +43,8 @@ Theorem C11_atomic_loses_nothing : forall progs sched s0,
   atomic_windows progs sched ->
   let final := run progs sched s0 in
   let ops := writes_of (trace_of progs sched) in
-  (forall w b, cp_ids (final (OCp w b)) = cp_ids (s0 (OCp w b)) ++ log (OCp w b) ops) /\
+  (forall w b, ~ In (ResetCp w b) ops ->
+               cp_ids (final (OCp w b)) = cp_ids (s0 (OCp w b)) ++ log (OCp w b) ops) /\
   (forall w, firstn max_events (as_ev (final (ORw w)))
              = firstn max_events (rev (log (ORw w) ops) ++ as_ev (s0 (ORw w)))) /\
   (forall k n, In (NotesAdd k n) ops -> In k (map fst (as_notes (final ONotes)))).
@@ -132,6 +133,36 @@ Theorem C11_torn_blob_refuted :
 Proof. exact torn_blob. Qed.
 Print Assumptions C11_torn_blob_refuted.
 
+(* git moves HEAD to c BEFORE git-ai's post-commit step of the commit b -> c runs; another actor may
+   checkpoint against c in the meantime.  The post-commit program applies to the working log of c
+   exactly what the translator read from post_commit (Gen/GenConc.v post_commit_resets_new_log =
+   false: only write_initial_attributions).  Then under EVERY interleaving no window overlaps and
+   an acknowledged (completed) checkpoint against the new head is in its working log afterwards.
+   The proof instantiates the hypothesis `post_commit_resets_new_log = false` by computation: it
+   stops type-checking when post_commit resets or deletes the new working log. *)
+Theorem C11_new_head_checkpoint_kept : forall w b c e n v x sched s0,
+  b <> c ->
+  let progs := [commit_prog w b c e n v; checkpoint_run w c x] in
+  let final := run progs sched s0 in
+  let ops := writes_of (trace_of progs sched) in
+  atomic_windows progs sched /\
+  cp_ids (final (OCp w c)) = cp_ids (s0 (OCp w c)) ++ log (OCp w c) ops /\
+  (length (thread_steps 1 (trace_of progs sched)) = length (checkpoint_run w c x) ->
+   In (cp_id x) (cp_ids (final (OCp w c)))).
+Proof. exact new_head_checkpoint_kept. Qed.
+Print Assumptions C11_new_head_checkpoint_kept.
+
+(* the hypothesis is needed: with a reset before the seeding the checkpoint is erased, and no
+   read..write windows overlap (so it would not even be in the known class) *)
+Theorem C11_reset_of_new_log_would_lose :
+  let progs := wit_reset_progs in
+  let sched := sched_ckpt_then_seed in
+  let final := run progs sched empty_store in
+  length (trace_of progs sched) = 6%nat /\ ~ Known_C11 progs sched /\
+  log (OCp 0 101) (writes_of (trace_of progs sched)) = [2] /\ cp_ids (final (OCp 0 101)) = [].
+Proof. exact reset_would_lose. Qed.
+Print Assumptions C11_reset_of_new_log_would_lose.
+
 (* ANY schedule: nothing is invented, order is kept (a subsequence of initial ++ appended in
    write order; with distinct identities nothing appears twice), every thread executes a prefix
    of its program *)
@@ -194,7 +225,8 @@ Theorem C11_known_exact : forall progs sched s0,
   let final := run progs sched s0 in
   let ops := writes_of (trace_of progs sched) in
   (forall o, final o = run_serial ops s0 o) /\
-  (forall w b, cp_ids (final (OCp w b)) = cp_ids (s0 (OCp w b)) ++ log (OCp w b) ops) /\
+  (forall w b, ~ In (ResetCp w b) ops ->
+               cp_ids (final (OCp w b)) = cp_ids (s0 (OCp w b)) ++ log (OCp w b) ops) /\
   (forall w, firstn max_events (as_ev (final (ORw w)))
              = firstn max_events (rev (log (ORw w) ops) ++ as_ev (s0 (ORw w)))) /\
   (forall k n, In (NotesAdd k n) ops -> In k (map fst (as_notes (final ONotes)))).
